@@ -287,11 +287,7 @@ class RelativeFilterQuery(FilterQuery):
 
     def evaluate(self, context: FilterContext) -> object:
         """Evaluate the filter expression in the given _context_."""
-        if not isinstance(context.current, (list, dict)):
-            if self.query.empty():
-                return context.current
-            return JSONPathNodeList()
-
+        # `@` on a primitive child is a single node too, whatever its value is.
         return JSONPathNodeList(self.query.find(context.current))
 
 
